@@ -654,6 +654,41 @@ def run_first(req):
                     n2.start_soon(looker2)
             n.cancel_scope.cancel()
 
+    if mode == "main_thread_outside":
+        # Trio runs in a background thread; the program's main thread, which has a wakeup fd of its own installed for
+        # signals (as asyncio's add_signal_handler or a GUI toolkit does), makes the first extraction
+        import signal
+        import socket
+        a, b = socket.socketpair()
+        a.setblocking(False)
+        b.setblocking(False)
+        old_fd = signal.set_wakeup_fd(a.fileno())
+        ready, release = threading.Event(), threading.Event()
+
+        async def bg_main():
+            box["task"] = trio.lowlevel.current_task()
+            async with trio.open_nursery() as n:
+                n.start_soon(sleeper)
+                n.start_soon(sleeper)
+                await trio.testing.wait_all_tasks_blocked(0.01)
+                ready.set()
+                await trio.to_thread.run_sync(release.wait)
+                n.cancel_scope.cancel()
+
+        th = threading.Thread(target=trio.run, args=(bg_main,), daemon=True)
+        th.start()
+        try:
+            if not ready.wait(30):
+                return {"harness_error": "background Trio run did not get going"}
+            look("main_thread_outside")
+            look("later")
+        finally:
+            release.set()
+            th.join(30)
+            signal.set_wakeup_fd(old_fd)
+            a.close()
+            b.close()
+        return {"obs": box["obs"][:6], "stats": {"observations": box["n"]}}
     insts = [Inst(mode)] if mode in ("before_io_wait", "after_task_step") else []
     trio.run(main, instruments=insts)
     if box["n"] == 0:
